@@ -62,6 +62,24 @@ def run(chk):
             if g.startswith(("err Semantic", "err Parse", "err Lexical")) and first is None:
                 first = ("the program without the violation is rejected (rule '%s', position '%s'): %s" % (c["rule"], c["position"], g[:60]),
                          {"source": c["good"], "rule": c["rule"], "position": c["position"], "kind": "over-rejection"})
+    # declaration / final rules: random statement trees through the Lean walk (Props/C16: the walk is the rule system) and the analyser
+    import scopetree
+    gens = [scopetree.Gen(chk.rng) for _ in range(4000 if chk.thorough else 500)]
+    trees = [g.program() for g in gens]
+    souts, _inc2 = run_guarded(evallib.harness(), ["run %s 0 -" % evallib.hx(scopetree.source(t)) for t in trees], chunk_timeout=600)
+    smod = driver(["scope " + " ".join(scopetree.code(t)) for t in trees])[0]
+    sdist = {}
+    for g, t, a, m in zip(gens, trees, souts, smod):
+        impl_rej = a.startswith("err Semantic")
+        impl_acc = a.startswith(("ok ", "err Runtime"))
+        key = "%s/%s" % ("reject" if impl_rej else "accept" if impl_acc else a[:12], g.injected or "well-scoped")
+        sdist[key] = sdist.get(key, 0) + 1
+        chk.count(("scope", " ".join(scopetree.code(t))) if g.injected else None)
+        if (m.split()[0] == "reject") != impl_rej or not (impl_rej or impl_acc):
+            if first is None:
+                first = ("declaration/final rules: the analyser %s this program, the rule system (Lean walk) says %s" % ("rejects" if impl_rej else "accepts: " + a[:40], m),
+                         {"source": scopetree.source(t), "model_line": "scope " + " ".join(scopetree.code(t)), "kind": "scope-tree"})
+    chk.extra["scope_trees"] = sdist
     chk.exhaustive = True
     chk.extra["input_distribution"] = {"rules": rules, "positions": positions, "programs": len(progs), "model_verdicts": len(mlines)}
     chk.extra["harness_incident"] = str(incident)[:300] if incident else ""
